@@ -897,7 +897,14 @@ impl CKBProtocolHandler for Synchronizer {
             Ok(msg) => {
                 let item = msg.to_enum();
                 if let packed::SyncMessageUnionReader::SendBlock(ref reader) = item {
-                    if reader.has_extra_fields() || reader.block().count_extra_fields() > 1 {
+                    // the only extra field a block may carry is the extension, a `Bytes`
+                    let malformed_extension = reader.block().extra_field(0).is_some_and(|data| {
+                        <packed::BytesReader as Reader>::verify(data, false).is_err()
+                    });
+                    if reader.has_extra_fields()
+                        || reader.block().count_extra_fields() > 1
+                        || malformed_extension
+                    {
                         info!(
                             "A malformed message from peer {}: \
                              excessive fields detected in SendBlock",
